@@ -123,8 +123,14 @@ def get_facts(repo="/repo", profile="dev", crate="neurons", quiet=False, slot=""
     return f
 
 
-def _prune(keep=40):
+def _prune(keep=80):
     base = os.path.join(CACHE, "facts")
-    ds = sorted((os.path.getmtime(os.path.join(base, n)), n) for n in os.listdir(base))
+    ds = []
+    for n in os.listdir(base):
+        try:
+            ds.append((os.path.getmtime(os.path.join(base, n)), n))
+        except OSError:
+            pass
+    ds.sort()
     for _, n in ds[:-keep]:
         shutil.rmtree(os.path.join(base, n), ignore_errors=True)
